@@ -75,7 +75,7 @@ KNOWN = {'protocols/tls.py': {'BufferingTLSTransport': ['__init__', 'loseConnect
 def _views(ctx):
     v = ctx.__dict__.get("_views_d")
     if v is None:
-        v = ctx.__dict__["_views_d"] = Views(ctx, KNOWN)
+        v = ctx.__dict__["_views_d"] = Views(ctx, KNOWN, extended=True)
     return v
 
 
@@ -120,6 +120,30 @@ def _reaches(ctx, g, facts, nodes, srcs, what):
     return True
 
 
+def _replay_loop(ctx, g):
+    """(loop head node, nodes control continues with when the loop is left normally, name of the list being replayed or None) for the loop in which
+    the detached writes are passed to _write again - a ``for`` over the detached list or a ``while`` that empties it, whichever the code uses."""
+    rew = set(call_nodes(g, "self._write"))
+    heads = []
+    for n in g.nodes:
+        if n.kind == "for" and g.reachable(n.id):
+            inside = g.reach(succ_of(g, n.id, "iter"), avoid=[n.id])
+            if rew & set(inside):
+                heads.append((n, succ_of(g, n.id, "done"), n.ast.iter.id if isinstance(n.ast.iter, ast.Name) else None))
+    for w in [x for x in walk_local(g.func) if isinstance(x, ast.While)]:
+        tests = [i for x in ast.walk(w.test) for i in g.ids_of(x) if g.nodes[i].kind == "test" and g.reachable(i)]
+        first = [i for i in g.ids_of(w.body[0])] if w.body else []
+        if not tests or not first:
+            continue
+        inside = set(g.reach(first, avoid=tests))
+        if rew & inside:
+            out = sorted({d for t in tests for d, l in g.succ[t] if l in ("T", "F") and d not in tests and d not in inside})
+            names = {x.id for x in ast.walk(w.test) if isinstance(x, ast.Name) and x.id != "len"}
+            heads.append((g.nodes[tests[0]], out, next(iter(names)) if len(names) == 1 else None))
+    ctx.need(len(heads) == 1, "the re-write loop of _unbufferPendingWrites")
+    return heads[0]
+
+
 def _liveness(ctx):
     """Every state with disconnecting=True that loseConnection() can leave behind must still be able to reach an *effective*
     close (abortConnection(), or _shutdownTLS() once the handshake is done - SSL_shutdown during the handshake fails and is
@@ -137,9 +161,7 @@ def _liveness(ctx):
     gd = ctx.cfg(fdr)
     fh = _F(ctx, T, "TLSMemoryBIOProtocol._checkHandshakeStatus")
     gh = ctx.cfg(fh)
-    loops = [n for n in gb.nodes if n.kind == "for" and gb.reachable(n.id)]
-    ctx.need(len(loops) == 1, "the re-write loop of _unbufferPendingWrites")
-    tail = succ_of(gb, loops[0].id, "done")
+    tail = _replay_loop(ctx, gb)[1]
     hs_calls = call_nodes(gd, "self._checkHandshakeStatus")
     ctx.need(hs_calls, "self._checkHandshakeStatus() in dataReceived")
     after_hs = [s for h in hs_calls for s in succ_of(gd, h, None)]
@@ -250,6 +272,11 @@ def _liveness(ctx):
 
 
 def check(ctx):
+    from sa.props._lib_d import Guarded
+    _check(Guarded(ctx, RULE_KINDS))
+
+
+def _check(ctx):
     mod = ctx.mod(T)
     cls = ctx.cls(T, "TLSMemoryBIOProtocol")
     sub = ctx.cls(T, "BufferingTLSTransport")
@@ -443,10 +470,23 @@ def check(ctx):
         f = _F(ctx, T, "TLSMemoryBIOProtocol._unbufferPendingWrites")
         g = ctx.cfg(f)
         q = QP + "_unbufferPendingWrites"
-        loops = [n for n in g.nodes if n.kind == "for" and g.reachable(n.id)]
-        ctx.need(len(loops) == 1, "the re-write loop of _unbufferPendingWrites")
-        head = loops[0]
-        tail = succ_of(g, head.id, "done")
+        # order of the replay, whatever the loop looks like: the argument of _write must not be taken from the END of the detached list
+        for n_, c_ in calls_with(g, "self._write"):
+            a_ = c_.args[0] if c_.args else None
+            a_ = resolve_locals(f, a_) if a_ is not None else None
+            lifo = isinstance(a_, ast.Call) and isinstance(a_.func, ast.Attribute) and a_.func.attr == "pop" and \
+                (not a_.args or const_value_is(a_.args[0], lambda v: isinstance(v, int) and v < 0))
+            lifo = lifo or (isinstance(a_, ast.Subscript) and const_value_is(a_.slice, lambda v: isinstance(v, int) and v < 0))
+            for lp in [x for x in g.nodes if x.kind == "for" and g.reachable(x.id)]:
+                it_ = lp.ast.iter
+                if a_ is not None and src(a_) == src(lp.ast.target) and ((isinstance(it_, ast.Call) and call_name(it_) == "reversed") or
+                                                                         (isinstance(it_, ast.Subscript) and isinstance(it_.slice, ast.Slice) and it_.slice.step is not None
+                                                                          and const_value_is(it_.slice.step, lambda v: isinstance(v, int) and v < 0))):
+                    lifo = True
+            ctx.check(not lifo, "unbuffer/replayed-oldest-first", ctx.construct(q, c_),
+                      "the writes buffered during the handshake are replayed newest-first (taken from the end of the list): the peer receives the bytes "
+                      "in a different order than they were written")
+        head, tail, lst = _replay_loop(ctx, g)
         st = call_nodes(g, "self._shutdownTLS")
         rs = call_nodes(g, "self._producer.resumeProducing")
         for facts, lab, must, never in (
@@ -465,27 +505,42 @@ def check(ctx):
                       "shutdown / resume happens although writes are still buffered, a producer is registered, or no close was requested",
                       witness=g.describe(path_under(g, facts, set(never), srcs=tail)) if R & set(never) else "")
         # swap before re-writing
-        it = head.ast.iter
-        rew = [n for n, c in calls_with(g, "self._write") if c.args and src(c.args[0]) == src(head.ast.target)]
-        ctx.check(bool(rew), "unbuffer/rewrites", q, "the pending writes are not passed to _write again")
-        resets = self_assigns(g, "_appSendBuffer", lambda v: isinstance(v, (ast.List, ast.Tuple)) and not v.elts)
-        ok = isinstance(it, ast.Name)
-        if ok:
+        def _from_list(a):
+            """the argument of _write is an element of the detached list: the for target, lst.pop(0), or lst[0] (through a local)"""
+            if head.kind == "for" and src(a) == src(head.ast.target):
+                return True
+            a = local_def(f, a)             # one step: the element was taken into a local first
+            if lst and isinstance(a, ast.Call) and call_name(a) == f"{lst}.pop":
+                return True
+            return bool(lst and isinstance(a, ast.Subscript) and src(a.value) == lst)
+        rew = [n for n, c in calls_with(g, "self._write") if c.args and _from_list(c.args[0])]
+        where = ctx.construct(q, f"for {src(head.ast.target)} in {src(head.ast.iter)}:" if head.kind == "for" else f"while {src(head.ast)}:")
+        direct = src(head.ast.iter) if head.kind == "for" else src(head.ast)
+        if lst is None and "self._appSendBuffer" in direct:
+            ctx.violation("unbuffer/swap-before-rewrite", where,
+                          "the replay loop runs over self._appSendBuffer itself: a write that is re-buffered during the loop is appended to the list being "
+                          "iterated (endless loop / duplicated bytes) or wiped afterwards")
+        elif lst is None:
+            ctx.note("unbuffer/swap-before-rewrite, unbuffer/rewrites: the list the replay loop runs over is not a plain local (" + where + "); "
+                     "not decided structurally")
+        else:
+            ctx.check(bool(rew), "unbuffer/rewrites", q, "the pending writes are not passed to _write again")
+            resets = self_assigns(g, "_appSendBuffer", lambda v: isinstance(v, (ast.List, ast.Tuple)) and not v.elts)
             caps = []
             for x in g.nodes:
                 if x.kind == "stmt" and g.reachable(x.id) and isinstance(x.ast, ast.Assign):
                     tg, v = x.ast.targets[0], x.ast.value
-                    if isinstance(tg, ast.Name) and tg.id == it.id and src(v) == "self._appSendBuffer":
+                    if isinstance(tg, ast.Name) and tg.id == lst and src(v) == "self._appSendBuffer":
                         caps.append(x.id)
                     elif isinstance(tg, ast.Tuple) and isinstance(v, ast.Tuple) and len(tg.elts) == len(v.elts):
                         for t_, v_ in zip(tg.elts, v.elts):
-                            if isinstance(t_, ast.Name) and t_.id == it.id and src(v_) == "self._appSendBuffer":
+                            if isinstance(t_, ast.Name) and t_.id == lst and src(v_) == "self._appSendBuffer":
                                 caps.append(x.id)
             ok = bool(caps) and bool(resets) and g.must_precede(caps, [head.id]) is None and g.must_precede(resets, [head.id]) is None \
                 and all(g.path([r], caps, strict=True, edge_ok=_nx) is None for r in resets if r not in caps)
-        ctx.check(ok, "unbuffer/swap-before-rewrite", ctx.construct(q, f"for {src(head.ast.target)} in {src(it)}:"),
-                  "the pending list is not detached (captured in a local and _appSendBuffer reset) before its elements are re-written: a write that "
-                  "is re-buffered during the loop is appended to the list being iterated (endless loop / duplicated bytes) or wiped afterwards")
+            ctx.check(ok, "unbuffer/swap-before-rewrite", where,
+                      "the pending list is not detached (captured in a local and _appSendBuffer reset) before its elements are re-written: a write that "
+                      "is re-buffered during the loop is appended to the list being iterated (endless loop / duplicated bytes) or wiped afterwards")
         acc = class_accesses(mod, cls, {"_appSendBuffer"}, {"self"})
         for a in acc:
             inl_ = _views(ctx).inliner(T)
@@ -879,6 +934,8 @@ MUTANTS = [
            "        self.transport.unregisterProducer()\n", expect_rule="unregister/resumes-postponed-shutdown"),
     Mutant("unregister-shutdown-ignores-buffer", T, "        if self.disconnecting and not self._appSendBuffer:\n            self._shutdownTLS()\n\n\n@implementer",
            "        if self.disconnecting:\n            self._shutdownTLS()\n\n\n@implementer", expect_rule="shutdown/not-while-writes-buffered"),
+    Mutant("unbuffer-replays-newest-first", T, "        for eachWrite in pendingWrites:\n            self._write(eachWrite)\n",
+           "        for eachWrite in reversed(pendingWrites):\n            self._write(eachWrite)\n", expect_rule="unbuffer/replayed-oldest-first"),
     Mutant("unbuffer-without-swap", T, _UB, "        for eachWrite in self._appSendBuffer:\n            self._write(eachWrite)\n        self._appSendBuffer = []\n",
            expect_rule="unbuffer/swap-before-rewrite"),
     Mutant("wantread-rebuffers-everything", T, "                self._bufferedWrite(bytes[alreadySent:])", "                self._bufferedWrite(bytes)", expect_rule="write/wantread-rebuffers-unsent-suffix"),
@@ -936,6 +993,17 @@ MUTANTS = [
            expect_rule="aggregate/sequence-routes-through-aggregator"),
 ]
 SILENT = [
+    Silent("unbuffer-loop-over-generator-helper", T, _UB, "        for eachWrite in self._detachPendingWrites():\n            self._write(eachWrite)\n",
+           more=[(T, "    def _unbufferPendingWrites(self):\n", "    def _detachPendingWrites(self):\n        pendingWrites, self._appSendBuffer = self._appSendBuffer, []\n"
+                  "        for eachWrite in pendingWrites:\n            yield eachWrite\n\n    def _unbufferPendingWrites(self):\n")]),
+    Silent("unbuffer-loop-as-while-with-index-and-del", T, _UB,
+           "        pendingWrites, self._appSendBuffer = self._appSendBuffer, []\n        while pendingWrites:\n            eachWrite = pendingWrites[0]\n            del pendingWrites[0]\n            self._write(eachWrite)\n"),
+    Silent("unbuffer-tail-selects-action-then-calls-it", T, "        if self._producer is not None:\n            # If we have a registered producer, let it know that we have some\n            # more buffer space.\n            self._producer.resumeProducing()\n            return\n\n        if self.disconnecting:\n            # Finally, if we have no further buffered data, no producer wants\n            # to send us more data in the future, and the application told us\n            # to end the stream, initiate a TLS shutdown.\n            self._shutdownTLS()\n",
+           "        if self._producer is not None:\n            action = self._producer.resumeProducing\n        elif self.disconnecting:\n            action = self._shutdownTLS\n        else:\n            return\n        action()\n"),
+    Silent("buffered-write-producer-sampled-into-local", T, "        self._appSendBuffer.append(octets)\n        if self._producer is not None:\n            self._producer.pauseProducing()\n",
+           "        self._appSendBuffer.append(octets)\n        producer = self._producer\n        if producer is None:\n            return\n        producer.pauseProducing()\n"),
+    Silent("write-chunk-through-static-helper", T, "            toSend = bytes[alreadySent : alreadySent + bufferSize]\n", "            toSend = self._window(bytes, alreadySent, bufferSize)\n",
+           more=[(T, "    def _write(self, bytes):\n", "    @staticmethod\n    def _window(data, start, size):\n        return data[start : start + size]\n\n    def _write(self, bytes):\n")]),
     Silent("unbuffer-swap-two-statements", T, _UB, "        pendingWrites = self._appSendBuffer\n        self._appSendBuffer = []\n        for pending in pendingWrites:\n            self._write(pending)\n"),
     Silent("lose-guard-nested", T, "        if not self._appSendBuffer and self._producer is None:\n            self._shutdownTLS()\n",
            "        if self._producer is None:\n            if not self._appSendBuffer:\n                self._shutdownTLS()\n"),
